@@ -56,6 +56,7 @@ impl IrsReal {
     pub fn remove(e: &Env, account: Address) { irs::remove_identity(e, &account) }
     pub fn stored_identity(e: &Env, account: Address) -> Address { irs::stored_identity(e, &account) }
     pub fn get_recovered_to(e: &Env, old: Address) -> Option<Address> { irs::get_recovered_to(e, &old) }
+    pub fn recover_identity(e: &Env, old: Address, new: Address) { irs::recover_identity(e, &old, &new) }
 }
 #[contract]
 pub struct IdvReal;
@@ -85,11 +86,17 @@ pub enum Step {
     Mint { to: usize, #[serde(with = "i128s")] amt: i128 },
     Transfer { from: usize, to: usize, #[serde(with = "i128s")] amt: i128 },
     Burn { who: usize, #[serde(with = "i128s")] amt: i128 },
+    /// supervisory transfer (no identity / can_transfer gate, but the compliance contract is still told)
+    Forced { from: usize, to: usize, #[serde(with = "i128s")] amt: i128 },
+    /// identity registry: the identity of `old` moves to `new`, `old` is marked recovered
+    IdRecover { old: usize, new: usize },
+    /// token: recover_balance(old, new) through the REAL verifier's recovery_target (registry's recovered-to link)
+    TokRecover { old: usize, new: usize },
 }
 #[derive(Clone, Debug, Serialize, Deserialize)]
 pub struct Cfg { pub actors: usize, #[serde(default)] pub many_modules: bool }
 #[derive(Clone, Debug, Default)]
-struct Model { hooks: BTreeMap<usize, std::vec::Vec<usize>>, ct: BTreeMap<usize, bool>, cc: BTreeMap<usize, bool>, bound: bool, reg: BTreeSet<usize>, bal: BTreeMap<usize, i128>, counts: BTreeMap<usize, (u32, u32, u32)> }
+struct Model { hooks: BTreeMap<usize, std::vec::Vec<usize>>, ct: BTreeMap<usize, bool>, cc: BTreeMap<usize, bool>, bound: bool, reg: BTreeSet<usize>, rec: BTreeMap<usize, usize>, bal: BTreeMap<usize, i128>, counts: BTreeMap<usize, (u32, u32, u32)> }
 impl Model {
     fn mods(&self, h: usize) -> std::vec::Vec<usize> { self.hooks.get(&h).cloned().unwrap_or_default() }
     fn b(&self, a: usize) -> i128 { *self.bal.get(&a).unwrap_or(&0) }
@@ -111,10 +118,10 @@ impl Check for RwaReal {
         Some(Step::Wait { n })
     }
     fn probes(&self, _prop: &str) -> std::vec::Vec<&'static str> {
-        vec!["probe.max_modules_reached"]
+        vec!["probe.max_modules_reached", "probe.identity_recovered", "probe.balance_recovered_via_real_registry_link"]
     }
     fn generate(&self, rng: &mut Rng, tier: Tier) -> (Cfg, std::vec::Vec<Step>) {
-        let cfg = Cfg { actors: 3, many_modules: rng.chance(10) };
+        let cfg = Cfg { actors: 4, many_modules: rng.chance(10) };
         let nsteps = if tier == Tier::Quick { 30 + rng.below(30) } else { 30 + rng.below(70) } as usize;
         let mut steps = vec![Step::Bind { on: true }, Step::Register { who: 0, on: true }, Step::Register { who: 1, on: true }, Step::Mint { to: 0, amt: 10_000 }];
         if cfg.many_modules {
@@ -128,7 +135,7 @@ impl Check for RwaReal {
         }
         for _ in 0..nsteps {
             let m = rng.below(3) as usize;
-            let who = rng.below(3) as usize;
+            let who = rng.below(4) as usize;
             steps.push(match rng.below(100) {
                 0..=17 => Step::AddModule { hook: rng.below(5) as usize, m },
                 18..=25 => Step::RemoveModule { hook: rng.below(5) as usize, m },
@@ -136,9 +143,19 @@ impl Check for RwaReal {
                 34..=37 => Step::Bind { on: rng.chance(70) },
                 38..=45 => Step::Register { who, on: rng.chance(70) },
                 46..=58 => Step::Mint { to: who, amt: 1 + rng.below(500) as i128 },
-                59..=89 => Step::Transfer { from: who, to: rng.below(3) as usize, amt: rng.below(300) as i128 },
+                59..=81 => Step::Transfer { from: who, to: rng.below(4) as usize, amt: rng.below(300) as i128 },
+                82..=84 => Step::Forced { from: who, to: rng.below(4) as usize, amt: rng.below(300) as i128 },
+                85..=87 => Step::IdRecover { old: who, new: rng.below(4) as usize },
+                88..=90 => Step::TokRecover { old: who, new: rng.below(4) as usize },
                 _ => Step::Burn { who, amt: rng.below(200) as i128 },
             });
+            // an identity recovery is usually followed by the balance recovery for the same pair (sometimes after another step)
+            if let Some(Step::IdRecover { old, new }) = steps.last().cloned() {
+                if rng.chance(70) {
+                    if rng.chance(30) { steps.push(Step::Mint { to: old, amt: 1 + rng.below(100) as i128 }); }
+                    steps.push(Step::TokRecover { old, new });
+                }
+            }
         }
         (cfg, steps)
     }
@@ -206,7 +223,8 @@ impl Check for RwaReal {
                 Step::Register { who, on } => {
                     let ic = IrsRealClient::new(e, &irs_id);
                     let g = if *on { ic.try_add(&a(*who), &ident).is_ok() } else { ic.try_remove(&a(*who)).is_ok() };
-                    let x = *on != m.reg.contains(who);
+                    // a recovered account can never be registered again
+                    let x = *on != m.reg.contains(who) && !(*on && m.rec.contains_key(who));
                     if x { if *on { m.reg.insert(*who); } else { m.reg.remove(who); } }
                     outcome = Some(("register", g, x));
                 }
@@ -223,6 +241,37 @@ impl Check for RwaReal {
                     if x { *m.bal.entry(*from).or_insert(0) -= amt; *m.bal.entry(*to).or_insert(0) += amt; for k in m.mods(0) { m.counts.entry(k).or_default().0 += 1; } }
                     outcome = Some(("transfer", g, x));
                 }
+                Step::Forced { from, to, amt } => {
+                    let g = c.try_forced_transfer(&a(*from), &a(*to), amt).is_ok();
+                    let x = m.b(*from) >= *amt && m.bound;
+                    if x { *m.bal.entry(*from).or_insert(0) -= amt; *m.bal.entry(*to).or_insert(0) += amt; for k in m.mods(0) { m.counts.entry(k).or_default().0 += 1; } }
+                    outcome = Some(("forced_transfer", g, x));
+                }
+                Step::IdRecover { old, new } => {
+                    let g = IrsRealClient::new(e, &irs_id).try_recover_identity(&a(*old), &a(*new)).is_ok();
+                    let x = !m.rec.contains_key(new) && m.reg.contains(old) && !m.reg.contains(new);
+                    if x { m.reg.remove(old); m.reg.insert(*new); m.rec.insert(*old, *new); st.hit("probe.identity_recovered"); }
+                    outcome = Some(("recover_identity", g, x));
+                }
+                Step::TokRecover { old, new } => {
+                    let r = c.try_recover_balance(&a(*old), &a(*new));
+                    let g = r.is_ok();
+                    // the new account must be verified (registered: no topic is required here) and be the registry's recovery target
+                    let x = m.reg.contains(new) && m.rec.get(old) == Some(new) && (m.b(*old) == 0 || m.bound);
+                    if x {
+                        let moved = m.b(*old);
+                        if r != Ok(Ok(moved > 0)) {
+                            return Err(violation("recover.whole_balance_to_target", "return", i, format!("{s:?} returned {r:?} with a lost balance of {moved}")));
+                        }
+                        if moved > 0 {
+                            st.hit("probe.balance_recovered_via_real_registry_link");
+                            m.bal.insert(*old, 0);
+                            *m.bal.entry(*new).or_insert(0) += moved;
+                            for k in m.mods(0) { m.counts.entry(k).or_default().0 += 1; }
+                        }
+                    }
+                    outcome = Some(("recover_balance", g, x));
+                }
                 Step::Burn { who, amt } => {
                     let g = c.try_burn(&a(*who), amt).is_ok();
                     let x = m.b(*who) >= *amt && m.bound;
@@ -233,7 +282,7 @@ impl Check for RwaReal {
             if let Some((kind, got, exp)) = outcome {
                 st.tx(kind, got);
                 if got != exp {
-                    let check = match (kind, got) { ("transfer", true) => "gate.transfer", ("mint", true) => "gate.mint", ("add_module_to" | "remove_module_from", _) => "modules.dup_or_absent_refused", (_, true) => "refine.must_fail", _ => "live.open_gates_succeed" };
+                    let check = match (kind, got) { ("transfer", true) => "gate.transfer", ("mint", true) => "gate.mint", ("recover_balance", true) => "recover.whole_balance_to_target", ("add_module_to" | "remove_module_from", _) => "modules.dup_or_absent_refused", (_, true) => "refine.must_fail", _ => "live.open_gates_succeed" };
                     return Err(violation(check, kind, i, format!("{s:?}: real {got} model {exp}; model {m:?}")));
                 }
                 if !got && w.storage_digest(&[&tok, &comp, &mods[0], &mods[1], &mods[2]]) != before { self.clause(st, &mut parked, violation("fail.no_trace", kind, i, format!("{s:?}")))?; }
@@ -245,14 +294,21 @@ impl Check for RwaReal {
             for h in 0..5 {
                 let got: std::vec::Vec<Address> = cc.get_modules_for_hook(&HOOKS[h]).iter().collect();
                 let want: std::vec::Vec<Address> = m.mods(h).iter().map(|k| mods[*k].clone()).collect();
+                let (mut got, mut want) = (got, want);
+                got.sort();
+                want.sort();
                 if got != want { self.clause(st, &mut parked, violation("modules.getters_eq_model", "get_modules_for_hook", i, format!("hook {h} after {s:?}")))?; }
                 for k in 0..mods.len() { if cc.is_module_registered(&HOOKS[h], &mods[k]) != m.mods(h).contains(&k) { self.clause(st, &mut parked, violation("modules.getters_eq_model", "is_module_registered", i, format!("hook {h} module {k}")))?; } }
+            }
+            for x in 0..cfg.actors {
+                let link = IdvRealClient::new(e, &idv_id).recovery_target(&a(x));
+                if link != m.rec.get(&x).map(|n| a(*n)) { self.clause(st, &mut parked, violation("recover.whole_balance_to_target", "recovery_target", i, format!("actor {x}: verifier reports {link:?}, model {:?} after {s:?}", m.rec.get(&x))))?; }
             }
             for x in 0..cfg.actors { if c.balance(&a(x)) != m.b(x) { self.clause(st, &mut parked, violation("state.model_eq", "balance", i, format!("actor {x} after {s:?}")))?; } }
             if let Some(v) = parked.take() {
                 return Err(v);
             }
-            st.state(&(m.hooks.clone(), m.bound, m.reg.clone()));
+            st.state(&(m.hooks.clone(), m.bound, m.reg.clone(), m.rec.clone()));
         }
         Ok(())
     }
